@@ -146,6 +146,21 @@ def inlined_older_model_cases():
     return out
 
 
+def body_node_not_converted_case():
+    """Known finding F9d (root cause F9b): a v17 operator whose OLD form the basic checker still accepts at a newer version (Split-17
+    without num_outputs) used only inside an If branch, next to an opset-19 operator in the main graph: the body is emitted - and
+    adapted - before the model's final opset is known, the node stays in its old form and build RETURNS a model the full checker and
+    onnxruntime refuse.  Kept as a fixed case so that the finding is re-observed (or its repair noticed) on every run."""
+    import numpy as np
+    import spox.opset.ai.onnx.v17 as op17
+    import spox.opset.ai.onnx.v19 as op19
+
+    x = B.argument(B.Tensor(np.float32, (4,)))
+    c = B.argument(B.Tensor(np.bool_, ()))
+    (r,) = op17.if_(c, then_branch=lambda: [op17.split(x, outputs_count=2)[0]], else_branch=lambda: [op17.split(x, outputs_count=2)[1]])
+    return B.Case({"x": x, "c": c}, {"y": op19.identity(r)}, False, {"names": "corner:body-node-not-converted/split-17-in-a-branch-under-opset-19"})
+
+
 def sibling_duplicate_case():
     """Corner: an inlined model whose two If branches each own a value of the same name (legal ONNX)."""
     import numpy as np
@@ -197,7 +212,7 @@ def run(run: Run) -> int:
         c.meta["names"] = "corner:functions"
         cases.append(c)
     cases.append(function_in_branch_and_main_case())
-    mixed = mixed_cases(run, n // 4) + converted_twice_cases() + inlined_older_model_cases()
+    mixed = mixed_cases(run, n // 4) + converted_twice_cases() + inlined_older_model_cases() + [body_node_not_converted_case()]
     cases += optional_output_cases()       # compared with the model: the result identity of an Optional value needs opset 16
     for c in mixed:
         B.run_impl(c)
@@ -242,6 +257,8 @@ def run(run: Run) -> int:
             kind = problems[0].split(" ")[0]
             if c.meta.get("names") == "corner:inline-sibling-duplicate" and all("Inline_" in p and "defined 2 times" in p for p in problems):
                 kind = "inline-sibling-duplicate-names"
+            if c.meta.get("names", "").startswith("corner:body-node-not-converted") and all("Split" in p for p in problems):
+                kind = "body-node-kept-at-its-old-version"
             run.fail("impl", f"C02/invalid-model-returned/{kind}", "build returned a model that is not valid: " + problems[0][:160],
                      {"problems": problems[:5], "case": B.describe(c)})
     for i in mism[:5]:
